@@ -103,7 +103,10 @@ htp_tx_t *htp_tx_create(htp_connp_t *connp) {
         return NULL;
     }
 
-    htp_list_add(tx->conn->transactions, tx);
+    if (htp_list_add(tx->conn->transactions, tx) != HTP_OK) {
+        htp_tx_destroy_incomplete(tx);
+        return NULL;
+    }
 
     return tx;
 }
